@@ -593,9 +593,10 @@ class BiproportionalEvaluator:
                 quotients, result, districts_under, districts_over
             )
             # If any undervalued district was reached by the path,
-            districts_under_labeled = list(sorted(
-                d for d in districts_under if d in districts_labeled
-            ))
+            districts_under_labeled = [
+                d for d in votes
+                if d in districts_under and d in districts_labeled
+            ]
             if districts_under_labeled:
                 # transfer the seat along that path.
                 self._augment_result(
@@ -712,9 +713,10 @@ class BiproportionalEvaluator:
                      Dict[Candidate, Set[Constituency]]
                  ]:
         """Attempt to find a seat transfer path along tied cells."""
-        all_parties = list(sorted(frozenset(
+        # in order of first appearance (candidate objects need not be sortable)
+        all_parties = list(dict.fromkeys(
             p for dqs in quotients.values() for p in dqs.keys()
-        )))
+        ))
         # Start with all districts with higher values than needed.
         labeled_districts = collections.defaultdict(
             set, {d: set() for d in districts_over}
@@ -826,7 +828,7 @@ class BiproportionalEvaluator:
                 if isinstance(district, votelib.evaluate.core.Tie):
                     # Tie on evaluation start, select an arbitrary district
                     # of the tied.
-                    for sel_district in list(sorted(district))[
+                    for sel_district in [d for d in votes if d in district][
                         :n_district_party_seats
                     ]:
                         solution[sel_district].setdefault(party, 0)
